@@ -134,6 +134,124 @@ func genSignedBuild(r *lib.Rng, rich bool) *lib.Build {
 	return b
 }
 
+// c05Shapes: signed builds whose container lacks a whole kind of entry (or has nothing to hash):
+// no regular file at all (only directories, only symlinks, both), regular files that are all
+// empty (total size 0), exactly one file and nothing else, nothing at all.  Validation has one
+// pass per kind of entry and one worker for the files; a build that leaves a pass without work is
+// where a shortcut ("nothing to hash") would sit.
+var c05Shapes = []string{"nofiles/dirs", "nofiles/links", "nofiles/dirs+links", "emptyfiles", "onefile", "nothing"}
+
+// genShapedBuild: rich = every optional entry of the shape present (fixed corpus cases)
+func genShapedBuild(r *lib.Rng, shape string, rich bool) *lib.Build {
+	b := &lib.Build{}
+	opt := func(num, den int) bool { return r.Chance(num, den) || rich }
+	putDirs := func() {
+		b.Put(lib.Entry{Path: "logs", Kind: "dir"})
+		if opt(2, 3) {
+			b.Put(lib.Entry{Path: "d/e", Kind: "dir"})
+		}
+		if opt(1, 2) {
+			b.Put(lib.Entry{Path: "a/sub/deep", Kind: "dir"})
+		}
+		if opt(1, 2) {
+			b.Put(lib.Entry{Path: "c", Kind: "dir"})
+		}
+	}
+	switch shape {
+	case "nofiles/dirs":
+		putDirs()
+	case "nofiles/links": // no directory either: links to nothing, to another link, to the root, to themselves
+		b.Put(lib.Entry{Path: "ln", Kind: "link", Dest: "nowhere"})
+		if opt(1, 2) {
+			b.Put(lib.Entry{Path: "ln2", Kind: "link", Dest: []string{"ln", "./ln"}[r.Intn(2)]})
+		}
+		if opt(1, 2) {
+			b.Put(lib.Entry{Path: "root", Kind: "link", Dest: "."})
+		}
+		if opt(1, 3) {
+			b.Put(lib.Entry{Path: "self", Kind: "link", Dest: "self"})
+		}
+	case "nofiles/dirs+links":
+		putDirs()
+		b.Put(lib.Entry{Path: "current", Kind: "link", Dest: []string{"logs", "logs/", "./logs", "logs/."}[r.Intn(4)]})
+		if opt(1, 2) {
+			b.Put(lib.Entry{Path: "logs/dangling", Kind: "link", Dest: "nowhere"})
+		}
+		if opt(1, 2) {
+			b.Put(lib.Entry{Path: "logs/up", Kind: "link", Dest: ".."})
+		}
+		if opt(1, 2) {
+			b.Put(lib.Entry{Path: "via", Kind: "link", Dest: "current/../logs"})
+		}
+	case "emptyfiles": // files, but not one byte to hash
+		n := r.Range(1, 3)
+		if rich {
+			n = 3
+		}
+		for i := 0; i < n; i++ {
+			b.Put(lib.Entry{Path: fmt.Sprintf("%se%d", []string{"", "a/", "a/b/"}[i], i), Kind: "file"})
+		}
+		if opt(1, 2) {
+			b.Put(lib.Entry{Path: "d/e", Kind: "dir"})
+		}
+		if opt(1, 2) {
+			b.Put(lib.Entry{Path: "ln", Kind: "link", Dest: "e0"})
+		}
+	case "onefile": // one file at the root, no directory, no symlink
+		sz := append([]int{0, 1}, c18Sizes...)[r.Intn(2+len(c18Sizes))]
+		if rich {
+			sz = 700
+		}
+		b.Put(lib.Entry{Path: "only", Kind: "file", Data: structuredContent(r, sz)})
+	case "nothing":
+	}
+	return b
+}
+
+// the fixed corpus of shaped builds: each with no damage and with one damage of every kind that
+// applies to an entry the shape has
+var c05ShapeCorpus = []struct {
+	shape string
+	force c05Force
+}{
+	{"nofiles/dirs", c05Force{"none", ""}}, {"nofiles/dirs", c05Force{"deldir", ""}}, {"nofiles/dirs", c05Force{"dir->file", ""}},
+	{"nofiles/dirs", c05Force{"dir->link", "dangling"}}, {"nofiles/dirs", c05Force{"dir->link", "todir"}},
+	{"nofiles/links", c05Force{"none", ""}}, {"nofiles/links", c05Force{"dellink", ""}}, {"nofiles/links", c05Force{"link->file", ""}},
+	{"nofiles/links", c05Force{"link->dir", ""}}, {"nofiles/links", c05Force{"retarget", "other"}}, {"nofiles/links", c05Force{"retarget", "dotslash"}},
+	{"nofiles/dirs+links", c05Force{"none", ""}}, {"nofiles/dirs+links", c05Force{"deldir", ""}}, {"nofiles/dirs+links", c05Force{"dir->file", ""}},
+	{"nofiles/dirs+links", c05Force{"dir->link", "loop"}}, {"nofiles/dirs+links", c05Force{"dellink", ""}}, {"nofiles/dirs+links", c05Force{"link->file", ""}},
+	{"nofiles/dirs+links", c05Force{"link->dir", ""}}, {"nofiles/dirs+links", c05Force{"retarget", "other"}}, {"nofiles/dirs+links", c05Force{"retarget", "prefix"}},
+	{"emptyfiles", c05Force{"none", ""}}, {"emptyfiles", c05Force{"del", ""}}, {"emptyfiles", c05Force{"nonempty", ""}}, {"emptyfiles", c05Force{"file->dir", ""}},
+	{"emptyfiles", c05Force{"file->link", "sameoutside"}}, {"emptyfiles", c05Force{"file->link", "dangling"}}, {"emptyfiles", c05Force{"deldir", ""}},
+	{"emptyfiles", c05Force{"dellink", ""}}, {"emptyfiles", c05Force{"retarget", "other"}},
+	{"onefile", c05Force{"none", ""}}, {"onefile", c05Force{"del", ""}}, {"onefile", c05Force{"emptied", ""}}, {"onefile", c05Force{"file->dir", ""}},
+	{"nothing", c05Force{"none", ""}},
+}
+
+// c05Simple applies a damage that needs no parameter to entry e of a; "" if op does not apply to e
+func c05Simple(a *lib.Build, e lib.Entry, op string) string {
+	switch {
+	case op == "del" && e.Kind == "file", op == "deldir" && e.Kind == "dir", op == "dellink" && e.Kind == "link":
+		a.Remove(e.Path)
+	case op == "nonempty" && e.Kind == "file" && len(e.Data) == 0:
+		a.Put(lib.Entry{Path: e.Path, Kind: "file", Data: []byte{1, 2, 3}})
+	case op == "emptied" && e.Kind == "file" && len(e.Data) > 0:
+		a.Put(lib.Entry{Path: e.Path, Kind: "file"})
+	case op == "file->dir" && e.Kind == "file", op == "link->dir" && e.Kind == "link":
+		a.Remove(e.Path)
+		a.Put(lib.Entry{Path: e.Path, Kind: "dir"})
+	case op == "dir->file" && e.Kind == "dir":
+		a.Remove(e.Path)
+		a.Put(lib.Entry{Path: e.Path, Kind: "file", Data: []byte("was a dir")})
+	case op == "link->file" && e.Kind == "link":
+		a.Remove(e.Path)
+		a.Put(lib.Entry{Path: e.Path, Kind: "file", Data: []byte("not a link")})
+	default:
+		return ""
+	}
+	return op + ":" + e.Path
+}
+
 // outsideDest is the destination string that leads from the entry at path `from` of the actual
 // tree to `name` in the directory "outside" that sits beside the actual tree.
 func outsideDest(from, name string) string {
@@ -299,6 +417,9 @@ func damageBuild(r *lib.Rng, signed *lib.Build, allowHiding bool, force *c05Forc
 			if nonEmpty--; nonEmpty >= 0 && e.Kind == "file" && len(e.Data) == 0 {
 				continue
 			}
+			if t := c05Simple(a, e, force.kind); t != "" {
+				return a, outside, []string{t}
+			}
 			switch {
 			case force.kind == "file->link" && e.Kind == "file":
 				if force.variant == "samesibling" {
@@ -330,7 +451,7 @@ func damageBuild(r *lib.Rng, signed *lib.Build, allowHiding bool, force *c05Forc
 		return a, outside, nil
 	}
 	n := r.Range(0, 4)
-	if r.Chance(1, 8) {
+	if r.Chance(1, 8) || len(signed.Entries) == 0 {
 		n = 0
 	}
 	for k := 0; k < n; k++ {
@@ -690,13 +811,29 @@ func runC05(c *Ctx) error {
 		return err
 	}
 	r := c.Rng.Fork()
-	nOld, nForced := 6, len(c05ForcedCorpus)
-	n := nOld + nForced + c.N(30, 494)
+	// corpus of combined damages inside one block: {signed size, cut to (-1 = not cut), offset of a flipped byte}
+	located := [][3]int{{2*bs64 + 10, -1, 2*bs64 + 9}, {bs64 + 100, bs64 + 50, bs64 + 10}, {700, 500, 10}, {3 * bs64, 2*bs64 + 1, 2 * bs64}, {2*bs64 + 10, 2*bs64 + 5, 3}}
+	nOld, nForced, nShaped := 6+len(located), len(c05ForcedCorpus), len(c05ShapeCorpus)
+	n := nOld + nForced + nShaped + c.N(36, 560)
 	for i := 0; i < n; i++ {
 		cr := r.Fork()
 		var signed, actual, outside *lib.Build
 		var tags []string
+		shape := ""
 		switch {
+		case i >= 6 && i < nOld: // corpus: a cut inside a block and/or a flipped byte below the cut (same block, earlier block)
+			l := located[i-6]
+			signed = &lib.Build{}
+			signed.Put(lib.Entry{Path: "f", Kind: "file", Data: structuredContent(cr, l[0])})
+			actual, outside = signed.Clone(), &lib.Build{}
+			d := append([]byte(nil), signed.Get("f").Data...)
+			if l[1] >= 0 {
+				d = d[:l[1]]
+				tags = append(tags, fmt.Sprintf("trunc:f:%d->%d", l[0], l[1]))
+			}
+			d[l[2]] ^= 0x20
+			tags = append(tags, fmt.Sprintf("flip:f@%d", l[2]))
+			actual.Put(lib.Entry{Path: "f", Kind: "file", Data: d})
 		case i < nOld: // corpus: shapes that failed before (fixed defects), always first
 			signed = &lib.Build{}
 			sz := []int{100, bs64, 5, 2*bs64 + 10, bs64 - 1, 3 * bs64}[i]
@@ -713,6 +850,15 @@ func runC05(c *Ctx) error {
 		case i < nOld+nForced: // corpus: one wrong-kind / wrong-destination damage of each shape on a small build with every feature
 			signed = genSignedBuild(cr, true)
 			actual, outside, tags = damageBuild(cr, signed, true, &c05ForcedCorpus[i-nOld])
+		case i < nOld+nForced+nShaped: // corpus: builds that lack a kind of entry, pristine and with one damage of each kind
+			sc := &c05ShapeCorpus[i-nOld-nForced]
+			shape = sc.shape
+			signed = genShapedBuild(cr, shape, true)
+			actual, outside, tags = damageBuild(cr, signed, true, &sc.force)
+		case i%4 == 1: // random: a shaped build with 0-4 damages
+			shape = c05Shapes[cr.Intn(len(c05Shapes)-1)] // "nothing" cannot be damaged: corpus only
+			signed = genShapedBuild(cr, shape, false)
+			actual, outside, tags = damageBuild(cr, signed, i%3 != 0, nil)
 		default:
 			signed = genSignedBuild(cr, false)
 			actual, outside, tags = damageBuild(cr, signed, i%3 != 0, nil)
@@ -926,8 +1072,11 @@ func runC05(c *Ctx) error {
 		if cls == "" {
 			cls = "pristine"
 		}
+		if shape != "" {
+			cls = shape + ":" + cls
+		}
 		c.Out.Emit(&lib.Case{Group: "val", Class: cls, Nontrivial: len(tags) > 0,
-			Input: map[string]interface{}{"signed": signed.Summary(), "damage": tags, "outside": outside.Summary()},
+			Input: map[string]interface{}{"shape": shape, "signed": signed.Summary(), "damage": tags, "outside": outside.Summary()},
 			Obs:   map[string]interface{}{"validate": wcls, "failfast": fcls, "wounds": woundsJ(wounds)}, Oracle: oracle,
 			Coq: fmt.Sprintf("($ID%%N, %s, %s, %s, (%s, %s, %s))", lib.CoqList(ds), lib.CoqList(ls), lib.CoqList(fs),
 				map[string]string{"ok": "ROk", "error": "RErr", "panic": "RPanic", "hang": "RHang"}[wcls],
